@@ -1,5 +1,5 @@
 """C11 — Wagner-Whitin: correspondence of Alg/WW.v with stockpyl.wagner_whitin + brute-force oracle."""
-import itertools
+import itertools, copy
 from fractions import Fraction
 import numpy as np
 from vlib import *
@@ -53,8 +53,18 @@ def coq_arg(a):
 def run_impl(c):
     from stockpyl.wagner_whitin import wagner_whitin
     try:
-        oq, cost, theta, nxt = wagner_whitin(c['T'], py_arg(c['h']), py_arg(c['K']), py_arg(c['d']), py_arg(c['c']))
-        return ('ok', [F(x) for x in oq], F(cost), [F(x) for x in theta], [int(x) for x in nxt])
+        args = [py_arg(c['h']), py_arg(c['K']), py_arg(c['d']), py_arg(c['c'])]
+        before = copy.deepcopy(args)
+        oq, cost, theta, nxt = wagner_whitin(c['T'], *args)
+        r = ('ok', [F(x) for x in oq], F(cost), [F(x) for x in theta], [int(x) for x in nxt])
+        # the caller's arguments are inputs, not scratch space: unchanged after the call, and a second call with the SAME objects gives the same answer
+        if args != before:
+            return ('mutated', 'arguments (h, K, d, c) before the call %r, after the call %r' % (before, args))
+        oq2, cost2, theta2, nxt2 = wagner_whitin(c['T'], *args)
+        r2 = ('ok', [F(x) for x in oq2], F(cost2), [F(x) for x in theta2], [int(x) for x in nxt2])
+        if r2 != r:
+            return ('unstable', 'first call %r, second call with the same argument objects %r' % (jsonable(r[1:3]), jsonable(r2[1:3])))
+        return r
     except Exception as e:
         return ('err', exc_kind(e), str(e)[:200])
 
@@ -129,6 +139,9 @@ def explore(chk, n, tmax, do_model=True):
             if do_model and m is not None:
                 chk.mismatch('model rejects (None) but got %r' % (m,), c)
             chk.case(c, False); continue
+        if r[0] in ('mutated', 'unstable'):
+            chk.fail('wagner_whitin|%s' % ('mutates-its-arguments' if r[0] == 'mutated' else 'second-call-differs'), r[1], c)
+            chk.case(c, False); continue
         if r[0] == 'err':
             chk.fail('wagner_whitin|raises-%s' % r[1], 'valid input raises %s: %s' % (r[1], r[2]), c)
             chk.case(c, False); continue
@@ -168,7 +181,9 @@ def replay(chk, rp):
     for k in 'hKdc': c[k] = fix(c[k])
     r = run_impl(c)
     print('implementation:', jsonable(r))
-    if r[0] == 'ok':
+    if r[0] in ('mutated', 'unstable'):
+        chk.fail('wagner_whitin|%s' % ('mutates-its-arguments' if r[0] == 'mutated' else 'second-call-differs'), r[1], c)
+    elif r[0] == 'ok':
         for sig, what in oracle(c, r):
             chk.fail('wagner_whitin|' + sig, what, c)
     elif not c.get('malformed'):
